@@ -549,6 +549,11 @@ func C09(items []Item, auth bool) (vs []V, checked int) {
 					}
 					break
 				}
+				if (wm == nil || wt == nil) && sleptInside(ex) {
+					// the client announced sleep in the middle of the exchange: the gateway's requests were
+					// held back for it (C11), the oracle cannot tell solicited from unsolicited answers
+					break
+				}
 				if wm == nil || wt == nil {
 					vs = append(vs, V{"C09", "mqtt-connect-before-will-complete|" + pathTo(ex.asItems(), it.Seq), "CONNECT with Will: MQTT CONNECT sent before a solicited WILLTOPIC and WILLMSG; client path: " + pathTo(ex.asItems(), it.Seq), it.Seq})
 					break
@@ -561,14 +566,14 @@ func C09(items []Item, auth bool) (vs []V, checked int) {
 			}
 		}
 		// progress: each step of a well-formed exchange is answered by the next one
-		healthy := ka != 0 && !precededByAwake(items, ex.Connect.Seq) && !doomed(items, ex.Connect)
-		if healthy && wt != nil && wt.Name != "" && wt.QoS <= 2 && !hasWildS(wt.Name) && !doomed(items, wtItem) {
+		healthy := ka != 0 && !precededByAwake(items, ex.Connect.Seq) && !doomed(items, ex.Connect) && !sleptInside(ex)
+		if healthy && wt != nil && wt.Name != "" && wt.QoS <= 2 && !hasWildS(wt.Name) && (!doomed(items, wtItem) || soleInput(items, wtItem)) {
 			checked++
 			if nWillMsgReqAfterWT == 0 {
 				vs = append(vs, V{"C09", fmt.Sprintf("no-willmsgreq|willqos=%d", wt.QoS), fmt.Sprintf("solicited %s was not answered with WILLMSGREQ", wt), wtItem.Seq})
 			}
 		}
-		if healthy && wm != nil && !doomed(items, wmItem) {
+		if healthy && wm != nil && (!doomed(items, wmItem) || soleInput(items, wmItem)) {
 			checked++
 			if nConnectAfterWM == 0 {
 				vs = append(vs, V{"C09", "no-mqtt-connect-after-willmsg", fmt.Sprintf("solicited WILLMSG (will topic %s) was not followed by an MQTT CONNECT", wt), wmItem.Seq})
@@ -602,6 +607,16 @@ func C09(items []Item, auth bool) (vs []V, checked int) {
 	return
 }
 
+// sleptInside: the client sent a DISCONNECT with a sleep duration inside the exchange.
+func sleptInside(ex Exchange) bool {
+	for _, it := range ex.Items {
+		if it.Kind == world.SNIn && it.SN != nil && it.SNErr == nil && it.SN.Type == snref.DISCONNECT && it.SN.HasDur && it.SN.Duration > 0 {
+			return true
+		}
+	}
+	return false
+}
+
 func (ex Exchange) asItems() []Item { return append([]Item{ex.Connect}, ex.Items...) }
 
 // exchangeCutShort: the session ended or was shut down right after the CONNECT (nothing can be expected).
@@ -622,6 +637,27 @@ func precededByAwake(items []Item, seq int) bool {
 		}
 		if it.Kind == world.SNIn && it.SN != nil && it.SN.Type == snref.DISCONNECT && it.SN.HasDur && it.SN.Duration > 0 {
 			return true
+		}
+	}
+	return false
+}
+
+// soleInput: nothing else reached the gateway between its last output and the given packet, so if the session
+// died right after the packet, the packet itself is what killed it (and "it was doomed anyway" is no excuse).
+func soleInput(items []Item, at Item) bool {
+	for i := len(items) - 1; i >= 0; i-- {
+		it := items[i]
+		if it.Seq >= at.Seq {
+			continue
+		}
+		switch it.Kind {
+		case world.SNOut:
+			// a DISCONNECT to the client is the notice of a session that is already ending
+			return !(it.SN != nil && it.SN.Type == snref.DISCONNECT)
+		case world.MQOut:
+			return true
+		case world.SNIn, world.MQIn, world.Note, world.CloseMB, world.CloseSC:
+			return false
 		}
 	}
 	return false
